@@ -100,7 +100,16 @@ def tree_step(ctx, facts, rule="TREE-STEP"):
         problems.append(("walk", "the walk index is defined by %s, expected the slot and then self.m + index / 2" % dk))
     # 3 value carried upward = max(current, sibling)
     dv = D(V)
-    if not (len(dv) == 2 and dv[0] == P_V and dv[1] in SIB):
+    # the same step as one value: `V = if V < sibling { sibling } else { V }` (possibly through a private helper, inlined)
+    MAXIF = set()
+    for sb in SIB:
+        for op in ("<", "<="):
+            MAXIF.add("if (%s %s %s) {%s} else {%s}" % (V, op, sb, sb, V))
+            MAXIF.add("if (%s %s %s) {%s} else {%s}" % (sb, op, V, V, sb))
+    canon_ = lambda x_: _re.sub(r"\s+", " ", x_.replace("{ ", "{").replace(" }", "}"))
+    if len(dv) == 2 and dv[0] == P_V and canon_(dv[1]) in {canon_(m_) for m_ in MAXIF}:
+        pass
+    elif not (len(dv) == 2 and dv[0] == P_V and dv[1] in SIB):
         problems.append(("carried value", "the carried value is defined by %s, expected the offered value and then the sibling's value self.values[index ^ 1]" % dv))
     else:
         for n in user_nodes(fn):
